@@ -23,7 +23,7 @@ fn ms(x: i64) -> Duration {
 
 pub struct C16;
 
-const C16_KINDS: &[&str] = &["interval", "interval-default-take", "timer", "delay", "timeout", "sample", "debounce"];
+const C16_KINDS: &[&str] = &["interval", "interval-default-take", "timer", "delay", "timeout", "sample", "debounce", "delay-two-sources"];
 
 impl Family for C16 {
   fn name(&self) -> &'static str {
@@ -70,6 +70,8 @@ impl Family for C16 {
       ("d_ms", Json::Int(d)),
       ("n_items", Json::Int(n)),
       ("gaps_ms", Json::arr(gaps.iter(), |g| Json::Int(*g))),
+      // second producer thread (kind "delay-two-sources"): its items reach delay while items of the first are in flight
+      ("gaps_b_ms", Json::arr(gaps.iter().rev(), |g| Json::Int(*g / 2 + 3))),
       ("ending", Json::str(*rng.pick(&["complete", "complete", "error", "silence"]))),
       // unsubscribe instant for interval (never a multiple of d)
       ("unsub_ms", Json::Int(d * rng.range(0, 4) as i64 + *rng.pick(&[13i64, 51, 77]))),
@@ -133,6 +135,13 @@ impl Family for C16 {
       _ => {}
     }
     let gaps_ns: Vec<u64> = gaps.iter().map(|g| *g as u64 * MS).collect();
+    let mut gaps_b: Vec<i64> = w.a("gaps_b_ms").iter().filter_map(|x| x.as_i64()).collect();
+    gaps_b.resize(gaps.len(), 11);
+    if gaps_b.iter().any(|g| *g < 1 || *g > 5000) {
+      return RunOut::invalid();
+    }
+    let gaps_b_ns: Vec<u64> = gaps_b.iter().map(|g| *g as u64 * MS).collect();
+    let script_b: Vec<Step> = script.iter().map(|s| if let Step::N(i) = s { Step::N(*i + 100) } else { s.clone() }).collect();
     let mut rec = Recorder::new();
     rec.next_delays_ns = Arc::new(delays.iter().map(|x| *x as u64 * MS).collect());
     let rec_b = Recorder::new();
@@ -187,6 +196,12 @@ impl Family for C16 {
           mark("subscribe");
           let _sub = rec2.subscribe(&src().delay(ms(d)));
         }
+        "delay-two-sources" => {
+          // two producer threads into one delay: an item arrives while another one is being delayed
+          let b = threaded_source("timed-source-b", script_b.clone(), sl.clone(), false, gaps_b_ns.clone(), handles.clone());
+          mark("subscribe");
+          let _sub = rec2.subscribe(&src().merge(&[b]).delay(ms(d)));
+        }
         "timeout" => {
           mark("subscribe");
           let _sub = rec2.subscribe(&src().timeout(ms(d), schedulers::new_thread_scheduler()));
@@ -222,6 +237,7 @@ impl Family for C16 {
     // ---- oracle
     let blame = match kind.as_str() {
       "interval-default-take" => "interval",
+      "delay-two-sources" => "delay",
       k => k,
     };
     let mut v = Vec::new();
@@ -346,6 +362,32 @@ impl Family for C16 {
             }
           }
           expect_terminal(&script, &evs, blame, &mut v, &shown);
+        }
+        "delay-two-sources" => {
+          // every item, whichever thread brought it, is handed on d after delay received it;
+          // per producer the order is kept
+          let src_items: Vec<&Emit> = emits.iter().filter(|e| matches!(e.step, Step::N(_))).collect();
+          let got: Vec<&Rec> = evs.iter().filter(|r| matches!(r.ev, Ev::Next(_))).collect();
+          let ended_by_error = matches!(script.last(), Some(Step::E(_)));
+          for e in &src_items {
+            let i = if let Step::N(i) = &e.step { *i } else { 0 };
+            match got.iter().find(|r| r.ev == Ev::Next(Val::Int(i))) {
+              Some(r) => {
+                if !at(r.t, e.t_start + dn) {
+                  v.push(Violation::new("wrong-instant", "delay", format!("[{}] delay({}ms) fed by two threads: item {} received at {:.1}ms was handed on at {:.1}ms: {}", cfg_name, d, e.step.show(), e.t_start as f64 / 1e6, r.t as f64 / 1e6, shown)));
+                }
+              }
+              // after the error of one producer the other one's items in flight are dropped legitimately
+              None if ended_by_error => {}
+              None => v.push(Violation::new("item-lost", "delay", format!("[{}] delay fed by two threads: item {} never handed on: {}", cfg_name, e.step.show(), shown))),
+            }
+          }
+          for lo in [100i64, 200] {
+            let mine: Vec<i64> = got.iter().map(|r| r.ev.clone()).filter_map(|e| if let Ev::Next(x) = e { Some(x.int()) } else { None }).filter(|x| *x >= lo && *x < lo + 100).collect();
+            if mine.windows(2).any(|p| p[0] >= p[1]) {
+              v.push(Violation::new("reordered", "delay", format!("[{}] delay changed the order of one producer's items: {}", cfg_name, shown)));
+            }
+          }
         }
         "timeout" => {
           // walk the source's actual emission instants. For item k: lo = arrival + d,
